@@ -56,11 +56,13 @@ def run(case):
         if np.any(np.isnan(v[1:]) & np.isnan(v[:-1])):
             tags.append("adjacent-nan")
     nontrivial = L >= 2
-    e = attempt(RLA.from_array, v.copy())
+    src_ = v.copy()
+    e = attempt(RLA.from_array, src_)
     desc = "RunLengthArray.from_array(%s %s)" % (dt, short(v, 160))
     if not e.ok:
         return violated("%s raised %r" % (desc, e), tags)
     r = e.value
+    scribble(src_)              # the caller reuses the array he encoded: the encoding is a snapshot
     # ---- lossless
     CTX.tick("c14:roundtrip")
     for what, f in (("to_array()", lambda: r.to_array()), ("np.asarray()", lambda: np.asarray(r))):
